@@ -365,7 +365,8 @@ def check_pair(rep, name, kind, x, y, kw):
 
 
 def run(res, tier, seed, search):
-    from harness import c07_model
+    from harness import c07_model, c07_model2
+    c07_model2.run_model2(res, np.random.default_rng([seed, 7092]), 40 if tier == "quick" else 600)
     c07_model.run_model(res, np.random.default_rng([seed, 709]), 40 if tier == "quick" else 600)   # Lean model (Float) vs real kernels / ufuncs
     res.rule = ("per public name of named_distances: generated pairs in the metric's domain (random reals / small "
                 "integers / 0-1; non-negative mass with zeros; ALL 0/1 pairs for dim <= %d; bit-packed uint8; "
